@@ -320,6 +320,12 @@ class Parser:
                 incl = self.next().v != ".."
                 hi = None
                 if self.peek().k in ("num", "char", "bchar") or self.at("-"): hi = self.parse_lit_pattern()
+                elif self.peek().k == "id" or (self.peek().k == "kw" and self.peek().v in ("crate", "super", "self", "Self")):
+                    # a named constant as the upper end of the range
+                    segs = [self.ident()]
+                    while self.at("::"):
+                        self.next(); segs.append(self.ident())
+                    hi = N("path", line, segs=segs, targs=[])
                 return N("prange", line, lo=lo, hi=hi, incl=incl)
             return N("plit", line, e=lo)
         if self.eat("ref"):
